@@ -70,7 +70,7 @@ const (
 	// creations); extraWall is the same in time. Both only limit the amount of work of a
 	// case, no verdict depends on them.
 	extraCap  = 1500
-	extraWall = 2 * time.Second
+	extraWall = 1 * time.Second
 	// activeBound is the property's time clause ("once the last block is released pending
 	// registrations complete"): typical completion takes 5-20 ms.
 	activeBound = 5 * time.Second
@@ -421,7 +421,9 @@ func (x *exec) syncFn(ctx context.Context, cb adaptation.SyncCB) error {
 		reg.Err = err.Error()
 		x.infraf("synchronization of %q failed: %v", reg.Plugin, err)
 	}
+	x.mu.Lock()
 	reg.TReturn = x.now()
+	x.mu.Unlock()
 	x.inSync.Add(-1)
 	x.finished.Add(1)
 	return err
@@ -544,6 +546,32 @@ func (x *exec) waitActive(pls []*plug, deadline time.Time) []*plug {
 		}
 		time.Sleep(500 * time.Microsecond)
 	}
+}
+
+// unsynced names a planned plugin whose Start was issued and whose registration has not
+// been synchronized yet (its SyncFn call has not returned), or "".
+func (x *exec) unsynced() string {
+	synced := map[string]bool{}
+	x.mu.Lock()
+	for _, rg := range x.regs {
+		if rg.TReturn != 0 {
+			synced[rg.Plugin] = true
+		}
+	}
+	x.mu.Unlock()
+	for _, pl := range x.plugs {
+		if !pl.resident && pl.launched.Load() && !synced[pl.name] {
+			select {
+			case <-pl.started:
+				if pl.startErr != "" {
+					continue
+				}
+			default:
+			}
+			return pl.name
+		}
+	}
+	return ""
 }
 
 func (x *exec) add(c *api.Container) {
@@ -683,7 +711,7 @@ func execute(c C08Case, attempt int) result {
 	cur.Store(x)
 
 	hist := History{Attempt: attempt, Hooks: verifhook.Enabled}
-	stuck := false
+	stuck, stuckFor := false, time.Duration(0)
 	var timeFail string
 
 	teardown := func() {
@@ -763,8 +791,13 @@ func execute(c C08Case, attempt int) result {
 			case <-time.After(50 * time.Millisecond):
 				if p := x.progress.Load(); p != last {
 					last, lastT = p, time.Now()
-				} else if time.Since(lastT) > stuckBound {
-					stuck = true
+				} else if idle := time.Since(lastT); idle > stuckBound ||
+					(idle > activeBound && x.held.Load() == 0 && x.unsynced() != "") {
+					// No creation has finished for `idle`: no block was released in that time, and with
+					// held == 0 none is held, so no block has been held for `idle`. With a registration
+					// still pending after activeBound the time clause has failed; otherwise the flat
+					// watchdog applies.
+					stuck, stuckFor = true, idle.Round(time.Second)
 					break wait
 				}
 			}
@@ -788,20 +821,8 @@ func execute(c C08Case, attempt int) result {
 			hist.Stacks = stacks()
 			// The adaptation may be wedged, so no probe is sent; a registration that has not even
 			// been synchronized (its SyncFn call has not returned) has certainly not completed.
-			if x.held.Load() == 0 {
-				synced := map[string]bool{}
-				x.mu.Lock()
-				for _, rg := range x.regs {
-					if rg.TReturn != 0 {
-						synced[rg.Plugin] = true
-					}
-				}
-				x.mu.Unlock()
-				for _, pl := range pending {
-					if !synced[pl.name] && timeFail == "" {
-						timeFail = fmt.Sprintf("no sync block has been held for %v (every creator is waiting inside BlockPluginSync) and the pending registration of plugin %s still has not been synchronized", stuckBound, pl.name)
-					}
-				}
+			if name := x.unsynced(); x.held.Load() == 0 && name != "" {
+				timeFail = fmt.Sprintf("no sync block has been held for %v (every creator is waiting inside BlockPluginSync) and the pending registration of plugin %s still has not been synchronized", stuckFor, name)
 			}
 		} else {
 			var ok []*plug
@@ -826,7 +847,9 @@ func execute(c C08Case, attempt int) result {
 			}
 		}
 	}
-	nwg.Wait()
+	if !stuck {
+		nwg.Wait()
+	}
 
 	// --- a final creation, after every registration completed: active plugins must get it ---
 	if timeFail == "" && !stuck {
@@ -985,7 +1008,7 @@ func execute(c C08Case, attempt int) result {
 		out.History = hist
 		return result{out: out, timeFail: timeFail}
 	case stuck:
-		return result{out: out, infra: fmt.Sprintf("creators made no progress for %v (no registration pending)", stuckBound)}
+		return result{out: out, infra: fmt.Sprintf("creators made no progress for %v (no registration pending)", stuckFor)}
 	}
 	return result{out: out}
 }
@@ -1074,6 +1097,9 @@ func classesOf(c C08Case, regs []Reg, nRes, overlapped, totalOverlap int) []stri
 	return cl
 }
 
+// timeConfirmed: a time-clause violation has been confirmed in this process (see runC08).
+var timeConfirmed bool
+
 // runC08 executes the plan and applies the Overloaded protocol to the time clause.
 func runC08(c C08Case) ev.Outcome {
 	c = normalize(c)
@@ -1083,6 +1109,15 @@ func runC08(c C08Case) ev.Outcome {
 	first := execute(c, 0)
 	if first.out.Fail != "" || (first.timeFail == "" && first.infra == "") {
 		return first.out
+	}
+	if first.timeFail != "" && timeConfirmed {
+		// Only reachable while rapid shrinks (or re-checks) after a time-clause violation that was
+		// confirmed by 4 executions out of 4 on an earlier case of this process: the exit code is
+		// already decided, candidates are judged by one execution to keep shrinking affordable.
+		// A replay (new process) always goes through the full protocol below.
+		o := first.out
+		o.Fail = "time clause (one execution; confirmed 4 out of 4 on an earlier case of this run): " + first.timeFail
+		return o
 	}
 	// The time clause failed, or the case could not be judged (a request or a registration
 	// failed for reasons the property does not talk about): re-execute up to three times.
@@ -1106,6 +1141,7 @@ func runC08(c C08Case) ev.Outcome {
 		last = res
 	}
 	if allTime {
+		timeConfirmed = true
 		o := last.out
 		o.Fail = "time clause, 4 executions out of 4: " + last.timeFail
 		return o
